@@ -118,6 +118,25 @@ where
         })
     }
 
+    /// Verification hook: `[phase (0 header, 1 data, 2 failed), header
+    /// staging fill, partial input fill, range, code, bytes produced]`.
+    #[cfg(lzma_rs_verif)]
+    pub fn verif_projection(&self) -> [u64; 6] {
+        let tmp = self.tmp.position();
+        match &self.state {
+            None => [2, tmp, 0, 0, 0, 0],
+            Some(State::Header(_)) => [0, tmp, 0, 0, 0, 0],
+            Some(State::Data(s)) => [
+                1,
+                tmp,
+                s.decoder.verif_partial_len() as u64,
+                s.range as u64,
+                s.code as u64,
+                s.output.len() as u64,
+            ],
+        }
+    }
+
     /// Consumes the stream and returns the output sink. This also makes sure
     /// we have properly reached the end of the stream.
     pub fn finish(mut self) -> crate::error::Result<W> {
